@@ -6,6 +6,10 @@ func init() {
 	reg("import-two-blank", 1, editCase(EditOpts{
 		ExtraImports: []string{`_ "embed"`, `_ "image/png"`},
 		BodyFor:      map[string]string{"queryResolver.Todos": "\n\tpanic(fmt.Errorf(\"x\"))\n"}}))
+	// two dot imports, both used (fix: 0731d3e - `.` binds no name either)
+	reg("import-two-dot", 1, editCase(EditOpts{
+		ExtraImports: []string{`. "math"`, `. "math/bits"`, `_ "embed"`, `_ "image/png"`},
+		BodyFor:      map[string]string{"queryResolver.Todos": "\n\t_ = Pi\n\tpanic(fmt.Errorf(\"x %d\", UintSize))\n"}}))
 	reg("import-same-path-twice", 1, editCase(EditOpts{
 		ExtraImports: []string{`"os"`, `xos "os"`},
 		BodyFor:      map[string]string{"queryResolver.Todos": "\n\t_ = os.Getenv(\"A\")\n\tpanic(fmt.Errorf(\"x %s\", xos.Getenv(\"B\")))\n"}}))
